@@ -56,8 +56,10 @@ package server
 //@   serves C01 C18
 //@   requires s != nil && s.cache != nil && s.accessLogger != nil && s.errorLogger != nil && ctx != nil
 //@   noframe
-//@   nosafety
 //@   ensures[C01] oneof: (result1 == nil) <==> (result0 != nil)
+//@   loop 0 invariant[C14] nonnil: forall k Int :: (offset(req.ChunkDigests) <= k && k < offset(req.ChunkDigests) + rangeindex + 1) ==> elems(req.ChunkDigests)[k] != 0
+//@   loop 0 modifies nothing
+//@   loop 1 invariant[C14] nonnil: forall k Int :: (offset(req.ChunkDigests) <= k && k < offset(req.ChunkDigests) + len(req.ChunkDigests)) ==> elems(req.ChunkDigests)[k] != 0
 //@   call Cache.Put#* asserts[C01] digest: arg2 == 1 && req.BlobDigest != nil && arg3 == req.BlobDigest.Hash && arg4 == req.BlobDigest.SizeBytes && arg4 == chunkTotal && arg4 > 0
 //@   call Cache.Put#* asserts[C18] limit: s.maxCasBlobSizeBytes > 0 ==> arg4 <= s.maxCasBlobSizeBytes
 //@   call Cache.Get#* asserts[C01] chunk: arg2 == 1 && arg3 == chunkDigest.Hash && arg4 == chunkDigest.SizeBytes && arg5 == 0
@@ -66,8 +68,8 @@ package server
 //@ func (s *grpcServer) SpliceBlob$1()
 //@   serves C01
 //@   requires s != nil && s.cache != nil && req != nil && pw != nil
+//@   assume checkedbyparent: forall k Int :: (offset(req.ChunkDigests) <= k && k < offset(req.ChunkDigests) + len(req.ChunkDigests)) ==> elems(req.ChunkDigests)[k] != 0
 //@   noframe
-//@   nosafety
 //@   call Cache.Get#* asserts[C01] chunk: arg2 == 1 && arg3 == chunkDigest.Hash && arg4 == chunkDigest.SizeBytes && arg5 == 0
 
 // GetTree (C02, C14): the root directory is fetched from the CAS under the request's digest, and
